@@ -23,6 +23,10 @@ BY_FILE = {
 }
 
 
+SLOW = ('C06', 'C10', 'C12')      # only run as the change's own check
+MAXREL = 3
+
+
 def sh(cmd, **kw):
     r = subprocess.run(cmd, shell=True, stdout=subprocess.PIPE, stderr=subprocess.STDOUT, **kw)
     return r.returncode, r.stdout.decode('utf8', 'replace')
@@ -44,7 +48,7 @@ def main():
             checks = [own]
             for f in files:
                 for c in BY_FILE.get(f, []):
-                    if c not in checks:
+                    if c not in checks and c not in SLOW and len(checks) < 1 + MAXREL:
                         checks.append(c)
         wt = tempfile.mkdtemp(prefix='mxwt-', dir='/tmp')
         os.rmdir(wt)
@@ -58,6 +62,8 @@ def main():
                 continue
             row = M.get(sid, {})
             for c in checks:
+                if c in row and 'rc' in row[c]:
+                    continue
                 t0 = time.time()
                 rc, o = sh('./check %s --tier quick' % c, cwd=V, env=dict(os.environ, MIASMX_REPO=wt, VERIF_REPLAYS='/dev/shm/mx-matrix', VERIF_EVIDENCE='/dev/shm/mx-matrix'))
                 nv = sum(1 for l in o.splitlines() if l.startswith('VIOLATION'))
